@@ -132,6 +132,100 @@ def deep_calls(F, f, guarded0=False, depth=0):
     return out
 
 
+def function_tables(F, f, depth=0):
+    """Tables of stored std::function objects that f looks up - in its own body or, when it has none, inside the local
+    helpers (PhQ::Internal functions, lambdas) it calls that hand a stored function out."""
+    aliases = reference_aliases(F, f)
+    cs = calls_with_context(f)
+    tabs = [t for m, _ in cs for t in tables_of_call(F, m, aliases, f) if "function<" in F.T(t["t"])]
+    if tabs or depth > 3:
+        return tabs
+    for m, _ in cs:
+        h = F.fns.get(m["f"])
+        if h is not None and "body" in h and is_local_helper(h) and h["id"] != f["id"]:
+            tabs += function_tables(F, h, depth + 1)
+    return tabs
+
+
+INT_BITS = {"int": 32, "long": 64, "long long": 64, "short": 16, "signed char": 8, "char": 8, "int8_t": 8}
+
+
+def int_range(F, n, depth=0):
+    """(lo, hi) of an integer expression whose value is confined by its form: a constant, or an element of a
+    namespace-scope / static-member constexpr std::array of constants (whatever the index), through casts.  None otherwise."""
+    if not isinstance(n, dict) or depth > 6:
+        return None
+    if "cv" in n:
+        try:
+            return int(n["cv"]), int(n["cv"])
+        except (TypeError, ValueError):
+            return None
+    k = n.get("k")
+    if k == "ilit":
+        return int(n["val"]), int(n["val"])
+    if k in ("cast", "paren") or (k == "ilist" and len(n.get("e", [])) == 1):
+        return int_range(F, n.get("e") if k != "ilist" else n["e"][0], depth + 1)
+    if k == "call" and "f" in n:
+        g = F.fns.get(n["f"])
+        if g is not None and g["sname"] in ("operator[]", "at") and re.match(r"std::array<", g.get("qname", "")):
+            o = _strip(n.get("obj"))
+            if isinstance(o, dict) and o.get("k") == "gvar" and o["v"] in F.vars and F.vars[o["v"]].get("init") is not None:
+                try:
+                    E = ev.Evaluator(F)
+                    val = E.rv(E.eval(o, {"f": {"name": "range"}, "params": [], "locals": {}, "this": None}))
+                    items = [t for _, t in ev.flatten(val)]
+                    if items and all(isinstance(t, int) and not isinstance(t, bool) for t in items):
+                        return min(items), max(items)
+                except ev.Inconclusive:
+                    return None
+    return None
+
+
+def contains_oob(t):
+    if isinstance(t, tuple):
+        return bool(t) and (t[0] == "oob" or any(contains_oob(x) for x in t))
+    if isinstance(t, ev.Obj):
+        return any(contains_oob(v) for v in t.f.values())
+    if isinstance(t, ev.Arr):
+        return any(contains_oob(v) for v in t.items)
+    if isinstance(t, ev.Str):
+        return any(contains_oob(v) for v in t.parts)
+    return False
+
+
+def index_bounded_by_callers(F, f, depth=0, seen=None):
+    """A local helper indexes an array with a parameter: decided at its call sites.  Every library caller is evaluated
+    (the helper is inlined there with the caller's - conditional or concrete - argument); (True, n callers) if every
+    element access on every path of every caller is inside its array, (False, why) if one leaves it, (None, why) if
+    undecided (no caller, or a caller that cannot be evaluated)."""
+    seen = seen or set()
+    if f["id"] in seen or depth > 3 or not is_local_helper(f):
+        return None, "not a helper that only the library calls"
+    seen.add(f["id"])
+    callers = sorted({cid for cid, _ in site_guards(F).get(f["id"], [])})
+    if not callers:
+        return None, "no call site in the library"
+    for cid in callers:
+        c = F.fns.get(cid)
+        if c is None or "body" not in c:
+            return None, "caller without body"
+        try:
+            E = ev.Evaluator(F)
+            res, _, _ = E.run_symbolic(c)
+            if contains_oob(E.rv(res) if res is not None else None):
+                return False, "called from %s with an index that can lie outside the array" % c["name"]
+        except ev.Inconclusive as x:
+            if str(x).startswith("bad array"):
+                return False, "called from %s: %s" % (c["name"], x)
+            if "symbolic array index" in str(x):
+                ok, why = index_bounded_by_callers(F, c, depth + 1, seen)
+                if ok is not True:
+                    return ok, why
+                continue
+            return None, "caller %s could not be evaluated (%s)" % (c["name"], str(x)[:80])
+    return True, "%d caller(s)" % len(callers)
+
+
 def has_throw(tree):
     found = []
     cg.walk(tree, lambda n: found.append(1) if n.get("k") == "throw" else None)
@@ -233,6 +327,7 @@ def run(chk):
                         "default constructors leave values uninitialised by documented design"]
     controls = {"cast": 0, "signed": 0, "unchecked": 0, "uninit": 0, "throw": 0, "vector_element": 0, "array_element": 0, "dangling": 0, "state": 0, "optional_deref": 0, "int_div": 0}
     n_calls = 0
+    helper_discharged, helper_deferred = set(), {}
     var_index_fns = set()
     n_array_idx = [0]
     for T in NUMERIC:
@@ -350,6 +445,14 @@ def run(chk):
                         except ev.Inconclusive as x:
                             if str(x).startswith("bad array"):
                                 chk.violated("R6", "%s: std::array index" % f["name"], "an element access leaves the array: %s" % x, loc)
+                            elif "symbolic array index" in str(x) and is_local_helper(f):
+                                ok, why = index_bounded_by_callers(F, f)
+                                if ok is True:
+                                    chk.holds("R6", "%s: std::array index" % f["name"], "the index is a parameter of a helper only the library calls; at every call site (%s, evaluated with the helper inlined) every access is inside the array" % why, loc)
+                                elif ok is False:
+                                    chk.violated("R6", "%s: std::array index" % f["name"], why, loc)
+                                else:
+                                    chk.inconclusive("R6", "%s: std::array index" % f["name"], "the index is a parameter and the call sites do not bound it: %s" % why, loc)
                             else:
                                 chk.inconclusive("R6", "%s: std::array index" % f["name"], "index is not a constant and the function could not be evaluated to bound it (%s)" % str(x)[:120], loc)
                 if kind == "unclassified":
@@ -367,12 +470,17 @@ def run(chk):
                         discharged = "key always present: " + table_total(tabs_here[0])[1]
                     elif g["sname"] == "operator()" and "std::function" in gq:
                         # the std::function comes out of a conversion table lookup in the same function
-                        tabs = [t for m, _ in calls for t in tables_of_call(F, m, aliases, f)]
-                        tabs = [t for t in tabs if "function<" in F.T(t["t"])]
+                        tabs = function_tables(F, f)
                         if tabs and all(table_total(t)[0] is True for t in tabs):
                             discharged = "target read from total table(s) of function references: %s" % ", ".join(sorted({re.sub(r"<.*", "", t["name"]) for t in tabs}))
                     if discharged:
                         chk.holds("R2", inst, "%s; %s" % (why, discharged), loc)
+                        if is_local_helper(f):
+                            helper_discharged.add(inst)
+                    elif is_local_helper(f) and not site_guards(F).get(f["id"]):
+                        # a non-template helper (an explicit specialisation for another numeric type) that nothing in
+                        # *this* instantiation set calls: decided where it is called (the instantiation for its own type)
+                        helper_deferred.setdefault(inst, ("may throw %s" % why, loc))
                     else:
                         chk.violated("R2", inst, "may throw %s and nothing discharges it (no enclosing catch(...), table not proved total)" % why, loc)
             # R5 scans
@@ -391,8 +499,16 @@ def run(chk):
                 if k in ("bin", "cassign") and n.get("op", "").rstrip("=") in ("+", "-", "*") and "cv" not in n:
                     t = strip_cvref(F.T(n.get("t", -1)) or "")
                     if t in SIGNED:
+                        ra, rb = int_range(F, n.get("l")), int_range(F, n.get("r"))
+                        bits = INT_BITS.get(t, 32)
+                        fits = False
+                        if ra and rb and k == "bin":
+                            combos = [x + y if n["op"] == "+" else x - y if n["op"] == "-" else x * y for x in ra for y in rb]
+                            fits = -(1 << (max(bits, 32) - 1)) <= min(combos) and max(combos) < (1 << (max(bits, 32) - 1))
                         if is_control:
                             controls["signed"] += 1
+                        elif fits:
+                            chk.holds("R5", "%s: signed %s" % (f["name"], n.get("op")), "operands confined to %s and %s by their form (constants / elements of constant tables): cannot overflow" % (ra, rb), loc)
                         else:
                             chk.violated("R5", "%s: signed %s" % (f["name"], n.get("op")), "non-constant signed integer arithmetic of type %s can overflow" % t, loc)
             cg.walk(f.get("body"), visit)
@@ -614,6 +730,9 @@ def run(chk):
         chk.holds("R7", "all library bodies", "no reference outlives a temporary it may refer to", "")
     for k, v in controls.items():
         (chk.holds if v > 0 else chk.inconclusive)("R0", "control:" + k, "scanner matched the control construct %d time(s)" % v, "driver")
+    for inst, (why, loc) in sorted(helper_deferred.items()):
+        if inst not in helper_discharged:
+            chk.violated("R2", inst, "%s and no instantiation (float, double, long double) calls this helper from inside try { } catch (...)" % why, loc)
     chk.floor("external call sites examined", n_calls, 9000)
     chk.coverage["external_call_sites"] = n_calls
     chk.coverage["constant_array_indices_checked"] = n_array_idx[0]
